@@ -56,7 +56,7 @@ class Probe:
     def _start(self):
         self.errf = open(os.path.join(self.tmp, "stderr.%d" % self.restarts), "wb+")
         self.p = subprocess.Popen([self.exe], stdin=subprocess.PIPE, stdout=subprocess.PIPE,
-                                  stderr=self.errf, env=self.env, bufsize=0)
+                                  stderr=self.errf, env=self.env, bufsize=1 << 16)
         self.rf = self.p.stdout
 
     def _stderr_tail(self):
